@@ -32,9 +32,12 @@ Print Assumptions C16_cmd_spec_mount.
    the export tree that is not a symlink is still there, unchanged, afterwards.
    cfg_ok: layers and exports directories are clean absolute paths, neither at or under the
    other; the build root is a relative path of plain components.
-   world_ok: unique paths; every export-tree entry has all its ancestors as directory entries. *)
+   world_ok: unique paths; every export-tree entry has all its ancestors as directory entries.
+   edit_ok: the manual command CEdit p x (somebody overwrites a file by hand; not layercake)
+   does not edit inside the export tree; true for every other command, the two manual kernel
+   commands included. *)
 Theorem C16_never_clobbers : forall cfg w e cmd um,
-  plain_env e = true -> cfg_ok cfg = true -> world_ok cfg w = true ->
+  plain_env e = true -> cfg_ok cfg = true -> world_ok cfg w = true -> edit_ok cfg cmd = true ->
   clobber_spec cfg (wo_fs w) (wo_fs (v_after (view_of_model cfg w e cmd um))) = true.
 Proof. exact C16_never_clobbers_proof. Qed.
 Print Assumptions C16_never_clobbers.
@@ -67,6 +70,7 @@ Print Assumptions C16_after_mount_partial.
 (* the whole predicate, every environment (under -p or a fault plan it is vacuous) *)
 Theorem C16_model_partial : forall cfg w e cmd um,
   cfg_ok cfg = true -> cfg_ok_mount cfg = true -> world_ok cfg w = true -> mount_ok cfg w cmd = true ->
+  edit_ok cfg cmd = true ->
   C16.step_spec cfg w (view_of_model cfg w e cmd um) = true.
 Proof. exact C16_model_partial_proof. Qed.
 Print Assumptions C16_model_partial.
